@@ -348,6 +348,20 @@ fn blackbox_h2(kind: &str, k: usize, out: &mut Out) {
         out.viol("bb2-no-result", &format!("h2 {kind} {k}: no result from the driver"));
         return;
     }
+    if kind.starts_with("drain_") {
+        let want3 = ["default 404", if kind == "drain_c" { "default 503" } else { "default 502" }, "relay"];
+        let got3: Vec<&str> = streams.iter().map(|x| x.0.as_str()).collect();
+        if got3 != want3 || streams[2].1 != 4 {
+            out.viol("bb2-drain", &format!("h2 {kind}: streams 1/3/5 observed {got3:?} (expected {want3:?}): a proxy-generated answer on one stream cut the others"));
+        }
+        return;
+    }
+    if kind == "cancel_reuse" {
+        if streams[2].0 != "relay" || streams[2].1 != 6 {
+            out.viol("bb2-cross-request", &format!("h2 cancel_reuse: the stream that followed a cancelled download observed {:?} (expected 200 'second', 6 bytes)", streams[2]));
+        }
+        return;
+    }
     for (j, want_body) in [(0usize, 4usize), (2, 6)] {
         if streams[j].0 != "relay" || streams[j].1 != want_body {
             out.viol("bb2-sibling", &format!("h2 {kind} {k}: sibling stream {} on the same connection: {} body={} (expected 200, {want_body} bytes, END_STREAM)", 1 + 2 * j, streams[j].0, streams[j].1));
